@@ -1480,26 +1480,45 @@ fn eval_call(
             },
 
             CallBinding::Func{bindings, mut closure, stmts} => {
+                // A `break` or `continue` that reaches the end of the
+                // function body is reported at its own location, as part of
+                // this call, so that it gets a position and a stacktrace.
                 let v = eval_stmts(
                     context,
                     &mut closure,
                     bindings,
                     &stmts,
                 )
+                    .and_then(|v| {
+                        match v {
+                            Escape::Break{loc: (line, col)} =>
+                                Err(Error::AtLoc{
+                                    source: Box::new(Error::BreakOutsideLoop),
+                                    line,
+                                    col,
+                                }),
+                            Escape::Continue{loc: (line, col)} =>
+                                Err(Error::AtLoc{
+                                    source: Box::new(
+                                        Error::ContinueOutsideLoop,
+                                    ),
+                                    line,
+                                    col,
+                                }),
+                            v =>
+                                Ok(v),
+                        }
+                    })
                     .context(EvalFuncCallFailed{
                         func_name,
                         call_loc: (*line, *col),
                     })?;
 
                 match v {
-                    Escape::None =>
-                        value::new_null(),
-                    Escape::Break{..} =>
-                        return Err(Error::BreakOutsideLoop),
-                    Escape::Continue{..} =>
-                        return Err(Error::ContinueOutsideLoop),
                     Escape::Return{value, ..} =>
                         value,
+                    _ =>
+                        value::new_null(),
                 }
             },
         };
